@@ -149,6 +149,10 @@ v("C09-twin-dict-pop", "C09", "silent", "execution/executor.py", "        handle
 v("C01-twin-all-loop", "C01", "silent", "execution/ops/operation.py", "        return all(map(lambda task: task.succeeded(), self.exe_deps))", "        for d in self.exe_deps:\n            if not d.succeeded():\n                return False\n        return True")
 v("C01-any-loop", "C01", "fire", "execution/ops/operation.py", "        return all(map(lambda task: task.succeeded(), self.exe_deps))", "        for d in self.exe_deps:\n            if d.succeeded():\n                return True\n        return False", "EX4")
 
+v("C10-exp-not-recorded", "C10", "fire", "execution/planning/planner.py", "                        record_output=True,", "                        record_output=False,", "JS1")
+v("C10-cmd-serialized", "C10", "fire", "execution/planning/planner.py", "                        serialize_args_options=False,", "                        serialize_args_options=True,", "JS1")
+v("C07-twin-memo-get", "C07", "silent", "execution/planning/planner.py", "                if lt.task.identifier in visited:\n", "                if visited.get(lt.task.identifier) is not None:\n")
+
 
 def _run_variant(var) -> Tuple[str, str, str]:
     id_, prop, kind, rel, old, new, rule = var
